@@ -77,7 +77,7 @@ fault = st.one_of(
     st.tuples(st.just('ltinput'), st.sampled_from(['missing', 'missing', 'undecodable'])),
 )
 small_flow = st.recursive(docgen.leaf_flow, docgen.mkflow, max_leaves=6)
-case_s = st.tuples(st.one_of(st.just([]), small_flow, st.just('LTINPUT-EMPTY'), st.just('LTINPUT-COMMENT')), docgen.sep_any, fault,
+case_s = st.tuples(st.one_of(st.just([]), small_flow, st.just('LTINPUT-EMPTY'), st.just('LTINPUT-COMMENT'), st.just('LTINPUT-NESTED'), st.just('LTINPUT-PACK')), docgen.sep_any, fault,
                    st.one_of(st.just([]), st.just([]), docgen.leaf_flow, small_flow),
                    st.sampled_from(['', '', ' ', '\n', '\n\n']))
 
@@ -98,7 +98,8 @@ def build(case, flags):
         fl['no_skip'] = True
     m = docgen.Model(fl)
     m.emit(docgen.PREAMBLE)
-    if prefix in ('LTINPUT-EMPTY', 'LTINPUT-COMMENT'):
+    if prefix in ('LTINPUT-EMPTY', 'LTINPUT-COMMENT', 'LTINPUT-NESTED', 'LTINPUT-PACK'):
+        # NESTED / PACK: the file read first reads a further file / loads packages that define macros by LaTeX text (two levels; round-5 seed C08-I)
         # a readable file without any definition is read first (two-step situation)
         m.emit('\\LTinput{zz-%s.tex}\n' % prefix[8:].lower())
         w = m.word()
